@@ -74,7 +74,12 @@ class Squeeze(_PreservesOrder):
         ----------
         axis : Optional[int, Tuple[int, ...]]"""
         self.variables = (a,)
-        return np.squeeze(a.data, axis=axis)
+        out = np.squeeze(a.data, axis=axis)
+        if out is a.data:
+            # nothing was squeezed and numpy handed back `a.data` itself; return a
+            # view of it so that the result is registered as a view of `a`
+            out = out.view()
+        return out
 
 
 class Flatten(_PreservesOrder):
